@@ -86,11 +86,23 @@ Section Glue.
     end.
 
   (* check_for_boolean_directive; None = panic in code[..subject_pos + 1] *)
+  (* code[subject_pos..].chars().next().map_or(0, len_utf8); None = the slice panics *)
+  Definition first_char_len (code : text) (subject_pos : N) : option N :=
+    match drop_bytes code subject_pos with
+    | None => None
+    | Some [] => Some 0
+    | Some (c :: _) => Some (cplen c)
+    end.
+
   Definition directive_check (directive : text) (code : text) (subject_pos : N) (re : regex)
     : option bool :=
-    match take_bytes code (subject_pos + 1) with
+    match first_char_len code subject_pos with
     | None => None
-    | Some pre => Some (scan_lines directive re (tl (rev (lines pre))))
+    | Some l =>
+        match take_bytes code (subject_pos + l) with
+        | None => None
+        | Some pre => Some (scan_lines directive re (tl (rev (lines pre))))
+        end
     end.
 
   Definition macro_of_interest (name : text) (cfg : config) : bool :=
@@ -130,19 +142,33 @@ Section Glue.
         else kvp_spans r acc_rev
     end.
 
-  (* the loop over the children of macro_args *)
-  Fixpoint scan_args (kids : list ptree) (msg : option ptree)
-           (kvs : list (ptree * option ptree)) : option ptree * list (ptree * option ptree) :=
+  (* the loop over the children of macro_args: message value, key-values, and the start of
+     the first argument after a target argument *)
+  Record args_scan := mkScan {
+    sc_msg : option ptree;
+    sc_kvs : list (ptree * option ptree);
+    sc_target : bool;
+    sc_after_target : option N }.
+
+  Fixpoint scan_args (kids : list ptree) (st : args_scan) : args_scan :=
     match kids with
-    | [] => (msg, kvs)
+    | [] => st
     | k :: r =>
-        if is_rule k "string_literal" then
+        let st :=
+          if sc_target st && match sc_after_target st with None => true | Some _ => false end
+          then mkScan (sc_msg st) (sc_kvs st) (sc_target st) (Some (node_start k))
+          else st in
+        if is_rule k "target_arg" then
+          scan_args r (mkScan (sc_msg st) (sc_kvs st) true (sc_after_target st))
+        else if is_rule k "string_literal" then
           match node_kids k with
-          | [] => scan_args r msg kvs
-          | v :: _ => scan_args r (Some v) kvs
+          | [] => scan_args r st
+          | v :: _ => scan_args r (mkScan (Some v) (sc_kvs st) (sc_target st) (sc_after_target st))
           end
-        else if is_rule k "kvp_args" then scan_args r msg (kvs ++ kvp_spans (node_kids k) [])
-        else scan_args r msg kvs
+        else if is_rule k "kvp_args" then
+          scan_args r (mkScan (sc_msg st) (sc_kvs st ++ kvp_spans (node_kids k) [])
+                              (sc_target st) (sc_after_target st))
+        else scan_args r st
     end.
 
   (* first key-value whose key text is the ref key and which has a value *)
@@ -181,7 +207,9 @@ Section Glue.
                 | [] => Skip
                 | args :: _ =>
                     if negb (is_rule args "macro_args") then Skip else
-                    let '(msg, kvs) := scan_args (node_kids args) None [] in
+                    let sc := scan_args (node_kids args) (mkScan None [] false None) in
+                    let msg := sc_msg sc in
+                    let kvs := sc_kvs sc in
                     let no_kvp :=
                       if cfg_structured cfg
                       then directive_check (p_no_kvp P) code (node_start args) (p_comment_re P)
@@ -196,14 +224,24 @@ Section Glue.
                               match line_col code (node_start vs),
                                     str_slice code (node_start vs) (node_end vs) with
                               | Some (l, c), Some vt =>
-                                  Emit (mkEntry (node_start vs) l c (parse_u32 vt) (short_name name)
+                                  Emit (mkEntry (node_start vs) l c (parse_u32 (trim (p_is_ws P) vt))
+                                                (short_name name)
                                                 KStructuredPreExisting None None)
                               | _, _ => StepPanic
                               end
                           | Done None =>
-                              match line_col code (node_start args) with
-                              | Some (l, c) =>
-                                  Emit (mkEntry (node_start args + 1) l (c + 1) None (short_name name)
+                              match match sc_after_target sc with
+                                    | Some p => match line_col code p with
+                                                | Some (l, c) => Some (p, l, c)
+                                                | None => None
+                                                end
+                                    | None => match line_col code (node_start args) with
+                                              | Some (l, c) => Some (node_start args + 1, l, c + 1)
+                                              | None => None
+                                              end
+                                    end with
+                              | Some (ipos, l, c) =>
+                                  Emit (mkEntry ipos l c None (short_name name)
                                                 KStructuredNew
                                                 (Some (fst (p_fmt_prefix P) ++ p_ref_key P
                                                        ++ snd (p_fmt_prefix P)))
@@ -243,7 +281,7 @@ Section Glue.
           | Emit e => collect cfg code r (e :: acc_rev)
           | StepPanic => Panic
           end
-        else if is_rule f "EOI" then collect cfg code r acc_rev
+        else if is_rule f "EOI" || is_rule f "other_name" then collect cfg code r acc_rev
         else Panic                                   (* unreachable!() *)
     end.
 
